@@ -71,13 +71,13 @@ def container_histories(kinds, caps, depth, idx_extra=2):
 def refused_growth_histories():
     """a growth reallocation is refused: the insertion fails, contents / capacity / counts stay, and the container keeps working"""
     out = []
-    for kind in ('arr', 'map', 'stri'):
+    for kind in ('arr', 'map', 'stri', 'strt'):
         for n in (0, 1, 2, 4, 8):
             g = Gen(None); sh = g.sh
             if kind == 'arr': sh.slots[0] = Obj('arr'); sh.reqs += 1; g.emit('arr 0 0 0', 'item'); op = 'push 0 1'
             elif kind == 'map': sh.slots[0] = Obj('map'); sh.reqs += 1; g.emit('map 0 0 0', 'item'); op = 'madd 0 1 1'
-            else: sh.slots[0] = Obj('strI', text=False); sh.reqs += 2; g.emit('stri 0 0', 'item'); op = 'chunk 0 1'
-            sh.slots[1] = Obj('str', text=False, data=b'x'); sh.reqs += 2; g.emit('str 1 0 78', 'item')
+            else: sh.slots[0] = Obj('strI', text=(kind == 'strt')); sh.reqs += 2; g.emit('stri 0 %d' % (kind == 'strt'), 'item'); op = 'chunk 0 1'
+            sh.slots[1] = Obj('str', text=(kind == 'strt'), data=b'x'); sh.reqs += 2; g.emit('str 1 %d 78' % (kind == 'strt'), 'item')
             C = sh.slots[0]
             def add():
                 if len(C.kids) >= C.cap: C.cap = grow(C.cap); sh.reqs += 1
